@@ -7,7 +7,7 @@ pub trait Storage: Send {
     fn txn<'a>(&'a mut self) -> (r: Result<Box<dyn StorageTxn + 'a>>)
         ensures match r {
             // a fresh transaction: nothing committed yet, working set well formed
-            Ok(t) => t.inv() && !t.st().committed && ws_wf(t.st().ws),
+            Ok(t) => t.inv() && t.st() == t.stored() && ws_wf(t.st().ws),
             Err(e) => storage_err(e),
         },
     ;
@@ -38,7 +38,7 @@ pub open spec fn commit_ops_final<F: Fn(&Operation) -> bool>(f: F, s0: TxnView, 
     // C05: tasks as if the operations were applied one at a time; operations recorded in order after the existing ones
     &&& s.tasks =~~= apply_l_seq(s0.tasks, ops)
     &&& s.unsynced == s0.unsynced + ops
-    &&& s.synced == s0.synced && s.base == s0.base && !s.committed
+    &&& s.synced == s0.synced && s.base == s0.base
     // C15: existing working-set numbers are untouched, newcomers are appended at the end, each once
     &&& s.ws == s0.ws + wrap_some(added)
     &&& no_dups(added)
@@ -115,7 +115,7 @@ impl<S: Storage> TaskDb<S> {
         proof { assert(s1.ws + wrap_some(added) =~= s1.ws); }
         for uuid in it_uuid: to_add
             invariant
-                it_uuid.seq() == ta, txn.inv(), !txn.st().committed,
+                it_uuid.seq() == ta, txn.inv(),
                 txn.st() == (TxnView { ws: s1.ws + wrap_some(added), ..s1 }),
                 working_set@ == somes(s1.ws + wrap_some(added)),
                 no_dups(added),
@@ -176,7 +176,7 @@ impl<S: Storage> TaskDb<S> {
         proof { assert(s2.unsynced + ops0.take(0) =~= s2.unsynced); }
         for operation in it_operation2: operations
             invariant
-                it_operation2.seq() == ops0, txn.inv(), !txn.st().committed,
+                it_operation2.seq() == ops0, txn.inv(),
                 txn.st() == (TxnView { unsynced: s2.unsynced + ops0.take(it_operation2.index() as int), ..s2 }),
         {
             let ghost k = it_operation2.index() as int;
